@@ -341,11 +341,30 @@ def expand(shard):
                 add_violation(part, "leak/flush", "flush leaves measurement registers / registers-to-return behind", case, {"after": after})
             if after["open_contexts"] != 0:
                 add_violation(part, f"leak/open-context/{name}", "completed operation leaves a context open", case, {"after": after})
+            if name != "flush":
+                # probe: the state key does not hold the pending commands, so what a flush does with THIS operation's pending
+                # work (array initialisation loops, register returns) is checked right here, from every state
+                k_before_probe = key(e)
+                try:
+                    op_flush(e)
+                    probe = e.economy()
+                    if probe["active"] != before["active"]:
+                        add_violation(part, f"leak-at-flush/active-register/{name}", f"flushing right after {name} leaves classical registers "
+                                      f"marked in use: {sorted(set(probe['active']) - set(before['active']))}", case, {"after_flush": probe})
+                    if probe["meas_used"] or probe["to_return"]:
+                        add_violation(part, f"leak-at-flush/meas-register/{name}", f"flushing right after {name} leaves measurement "
+                                      "registers / registers-to-return behind", case, {"after_flush": probe})
+                except Exception as exc:
+                    msg = str(exc).splitlines()[0][:160] if str(exc) else ""
+                    add_violation(part, f"flush-raises/{name}", f"flushing right after {name} fails: {type(exc).__name__}: {msg}", case)
+                succ_key = k_before_probe
+            else:
+                succ_key = key(e)
             leaked = sum(n for k, n in part["counters"].items() if k.startswith("violation:")) != nviol_before
             if not leaked:
                 # states behind a leaking transition are not expanded: the leak itself is the report, and on a leaking tree
                 # the chain of ever larger states would otherwise make the search explode
-                succ.append((key(e), list(history) + [idx]))
+                succ.append((succ_key, list(history) + [idx]))
     part["_succ"] = succ
     return part
 
